@@ -63,6 +63,12 @@ CHECKS = {
  'C18': dict(tech='differential runtime check: output digest of a probe call in a fresh process vs after prefix histories in the same process',
    text='Probe calls (first factorization + solve, complete driver calls; 1 thread, built-in kernels) are run fresh and after single and paired prefix histories (other sizes/families/tuning, refactor chains, sufficient and insufficient user workspace, singular calls, queries, 8-thread runs); every output byte is digested and must be identical.',
    note='Prefixes in another precision are not exercised (one precision per probe binary).', ref='5/C18'),
+ 'C16': dict(tech='runtime oracle (reconstruction, perm_r == perm_c) + slot-bound shadow monitor + ASan/TSan builds on symmetric-mode workloads',
+   text='Symmetric-mode factorizations (direct and through the expert driver) of row/column diagonally dominant matrices with symmetric and unsymmetric patterns, threshold 0, ordering on A^T+A, 1..8 threads, perturbed; diagonal pivots are asserted as perm_r == perm_c, the fill-versus-prediction claim by the slot monitor at every L allocation, C01/C02 by the extended-precision oracles.',
+   note='Dominance guarantees non-vanishing diagonal pivots; other symmetric-mode inputs are outside the statement.', ref='5/C16'),
+ 'C20': dict(tech='differential runtime check against an independent python writer; readers run in child processes (plain and ASan) on generated files',
+   text='Files in the three formats with random legal edit descriptors, D/E exponents, optional right-hand-side sections, complex data, rectangular shapes and empty columns are generated from the format definitions and fed to the readers on stdin; dimensions, structure and every value (bit pattern of the correctly rounded printed decimal) must match.',
+   note='Symmetric-type files are a known finding (no expansion); for single precision the value obtained by double rounding through binary64 is accepted as well.', ref='5/C20'),
 }
 checks = []
 for pid, d in CHECKS.items():
